@@ -3,7 +3,7 @@ import json, copy, re
 from common import *
 import impl, l2, gens
 
-THMS = ["C11_null_is_substitution", "C11_any_two_nulls"]
+THMS = ["C11_null_is_substitution", "C11_any_two_nulls", "C11_call_named_null_refuted"]
 SENT = "␀NULL-SENTINEL␀"
 XS = [("none", None), ("zero", 0), ("empty", ""), ("strNULL", "NULL"), ("list", []), ("nulldict", {"null": {}}), ("nest", {"n": [1, {"m": None}]})]
 
